@@ -18,3 +18,46 @@ func dbg(p *an.Prog) {
 		}
 	}
 }
+
+func dumpBeliefs(p *an.Prog) {
+	for _, f := range p.ModuleFuncs() {
+		for _, b := range f.Blocks {
+			for _, in := range b.Instrs {
+				switch x := in.(type) {
+				case *ssa.Panic:
+					fmt.Printf("PANIC\t%s\t%s\t%s\n", an.FuncPkgPath(f), an.FuncName(f), panicMessage(x))
+				case *ssa.TypeAssert:
+					if !x.CommaOk {
+						fmt.Printf("ASSERT\t%s\t%s\t%s <- %s\n", an.FuncPkgPath(f), an.FuncName(f), an.ShortType(x.AssertedType), operandKind(x.X))
+					}
+				}
+			}
+		}
+	}
+}
+
+func panicMessage(p *ssa.Panic) string {
+	v := p.X
+	if mi, ok := v.(*ssa.MakeInterface); ok {
+		v = mi.X
+	}
+	if s, ok := an.ConstString(v); ok {
+		return s
+	}
+	if c, ok := v.(*ssa.Call); ok && an.IsCallTo(c, "fmt.Sprintf") {
+		if s, ok := an.ConstString(c.Call.Args[0]); ok {
+			return s
+		}
+	}
+	return "?"
+}
+
+func operandKind(v ssa.Value) string {
+	switch x := v.(type) {
+	case *ssa.Call:
+		return "call:" + an.TrimModule(an.CalleeName(x))
+	case *ssa.Parameter:
+		return "param:" + an.ShortType(x.Type())
+	}
+	return "value:" + an.ShortType(v.Type())
+}
